@@ -44,6 +44,8 @@ impl<'a> SocketPeek<'a> {
 
             // finish the read operation
             match recv(self.io_data.fd, self.buf, MsgFlags::MSG_PEEK) {
+                #[cfg(may_verif)]
+                ref r if crate::verif::sys(&self.io_data.io_flag, "sys.peek", r) => unreachable!(),
                 Ok(n) => return Ok(n),
                 Err(e) => {
                     if e == nix::errno::Errno::EAGAIN {
